@@ -160,7 +160,7 @@ func check(args []string) int {
 
 	var cs []*vc.Contract
 	for _, c := range w.Contracts {
-		if c.Iface || c.Trusted || c.ModelOf != "" {
+		if c.Iface || c.Trusted || c.ModelOf != "" || c.OpaqueFn != "" {
 			continue
 		}
 		if hasProp(c, *prop) {
@@ -407,7 +407,7 @@ func lockCmd(args []string) int {
 	}
 	lock := lockFile{}
 	for _, c := range w.Contracts {
-		if c.Iface || c.Trusted || c.ModelOf != "" {
+		if c.Iface || c.Trusted || c.ModelOf != "" || c.OpaqueFn != "" {
 			continue
 		}
 		tr := w.Verify(c)
